@@ -96,7 +96,7 @@ def gen_c02(tier, seed):
             meta["expect_eof"] = 1
         elif tmpl == 3:
             # start-up input followed by EOF
-            sz = r.choice([0, 1, 100, 4096, 65535, 65536])
+            sz = r.choice([0, 1, 100, 4096, 65535, 65536, 65537, 200000, 1000000])
             o["input"] = sz
             ev.append("E 0 5 E 0")
             ops.append("Z 50")
@@ -128,6 +128,13 @@ def gen_c02(tier, seed):
             ops.append("Z 20")
             ops.append("RD 0 1 %d" % r.choice([0, 1, 4096]))
             ops.append("RD 0 1 4096")
+        if tmpl in (0, 1, 2, 4) and i % 5 == 0:
+            # an interrupted read()/write() (EINTR) must not lose or close anything: the call may fail,
+            # the stream stays as it was. Index 2+ skips the two error-pipe reads of start.
+            fn = "write" if tmpl in (2, 4) and r.random() < 0.6 else "read"
+            k = (2 + r.randrange(4)) if fn == "read" else r.randrange(3)
+            parts.insert(0, "F 0 %s %d 4" % (fn, k))
+            meta["fault"] = (fn, k)
         parts.append(start_tokens(0, o))
         parts += ev + ops + ["D 0"]
         meta["handles"] = {0: o}
@@ -410,6 +417,8 @@ def judge_c02(case, log):
                     V(vs, "C02", "wouldblock-at-eof", "EWOULDBLOCK although the stream is closed and drained")
             elif ret == ETIMEDOUT and name == "RA":
                 pass
+            elif ret == -4 and any(t[7] & 1 for t in op.get("tr", [])):
+                obs["injected_eintr"] = obs.get("injected_eintr", 0) + 1  # the interrupted call itself may fail
             elif ret <= 0:
                 V(vs, "C02", "read-unexpected-result:%d" % ret, "read returned %d" % ret)
         elif name in ("WR", "WA"):
@@ -433,6 +442,8 @@ def judge_c02(case, log):
                     V(vs, "C02", "write-wouldblock-unjustified", "EWOULDBLOCK with %d bytes in the pipe (nb=%s)" % (hs.stdin_occ, hs.opts.get("nb")))
                 if not hs.par_open[0] and size > 0 and ret != EPIPE:
                     V(vs, "C02", "write-after-close-not-epipe", "stdin closed but write returned %d" % ret)
+            if ret == -4 and any(t[7] & 1 for t in op.get("tr", [])):
+                obs["injected_eintr"] = obs.get("injected_eintr", 0) + 1
     return vs, obs, obs["reads"] + obs["writes"] > 0
 
 
